@@ -62,6 +62,9 @@ fn cart_inv(op: &Op, _ctx: &dyn Context, operands: &mut dyn CoordinateSet) -> us
             let h = Z.abs() - b;
             coord = Coor4D::raw(lam, phi, h, t);
             operands.set_coord(i, &coord);
+            if ![lam, phi, h, t].iter().any(|c| c.is_nan()) {
+                successes += 1;
+            }
             continue;
         }
 
